@@ -482,17 +482,27 @@ pub struct SecureChunk {
     generation: u32,
     pool_id: u32,
     canary: u32,
+    /// Alignment of the data area and of the backing allocation (>= 8)
+    align: usize,
 }
 
 impl SecureChunk {
+    /// Offset of the data area inside the backing allocation: the header size
+    /// rounded up to `align`, so that the data area honours the alignment
+    fn data_offset(align: usize) -> usize {
+        (std::mem::size_of::<ChunkHeader>() + align - 1) & !(align - 1)
+    }
+
     /// Create a new secure chunk with validation metadata
-    fn new(size: usize, generation: u32, pool_id: u32) -> Result<Self> {
+    fn new(size: usize, align: usize, generation: u32, pool_id: u32) -> Result<Self> {
         let canary = fastrand::u32(..);
+        let align = align.max(8);
         let header_size = std::mem::size_of::<ChunkHeader>();
         let footer_size = std::mem::size_of::<ChunkFooter>();
-        let total_size = header_size + size + footer_size;
+        let data_offset = Self::data_offset(align);
+        let total_size = data_offset + size + footer_size;
 
-        let layout = Layout::from_size_align(total_size, 8)
+        let layout = Layout::from_size_align(total_size, align)
             .map_err(|_| ZiporaError::invalid_data("Invalid layout for chunk allocation"))?;
 
         let raw_ptr = unsafe { alloc(layout) };
@@ -500,8 +510,8 @@ impl SecureChunk {
             return Err(ZiporaError::out_of_memory(size));
         }
 
-        // Initialize header
-        let header = raw_ptr as *mut ChunkHeader;
+        // Initialize header (directly in front of the data area)
+        let header = unsafe { raw_ptr.add(data_offset - header_size) as *mut ChunkHeader };
         unsafe {
             (*header) = ChunkHeader {
                 magic: CHUNK_HEADER_MAGIC,
@@ -515,7 +525,7 @@ impl SecureChunk {
         }
 
         // Initialize footer (only byte-aligned when `size` is not a multiple of 8)
-        let footer_ptr = unsafe { raw_ptr.add(header_size + size) as *mut ChunkFooter };
+        let footer_ptr = unsafe { raw_ptr.add(data_offset + size) as *mut ChunkFooter };
         unsafe {
             footer_ptr.write_unaligned(ChunkFooter {
                 canary,
@@ -525,7 +535,7 @@ impl SecureChunk {
         }
 
         // Return pointer to data area (after header)
-        let data_ptr = unsafe { raw_ptr.add(header_size) };
+        let data_ptr = unsafe { raw_ptr.add(data_offset) };
 
         Ok(Self {
             ptr: unsafe { NonNull::new_unchecked(data_ptr) },
@@ -533,6 +543,7 @@ impl SecureChunk {
             generation,
             pool_id,
             canary,
+            align,
         })
     }
 
@@ -639,16 +650,16 @@ impl SecureChunk {
             }
         }
 
-        let header_size = std::mem::size_of::<ChunkHeader>();
+        let data_offset = Self::data_offset(self.align);
         let footer_size = std::mem::size_of::<ChunkFooter>();
-        let total_size = header_size + self.size + footer_size;
+        let total_size = data_offset + self.size + footer_size;
 
-        let raw_ptr = unsafe { self.ptr.as_ptr().sub(header_size) };
+        let raw_ptr = unsafe { self.ptr.as_ptr().sub(data_offset) };
         // SAFETY: Layout::from_size_align() cannot fail because:
         // 1. total_size was successfully used to allocate this chunk
-        // 2. Alignment of 8 is always valid (power of 2)
+        // 2. self.align was successfully used to allocate this chunk
         // 3. self.size was validated during allocation
-        let layout = Layout::from_size_align(total_size, 8).unwrap();
+        let layout = Layout::from_size_align(total_size, self.align).unwrap();
 
         unsafe {
             dealloc(raw_ptr, layout);
@@ -1111,7 +1122,7 @@ impl SecureMemoryPool {
         }
 
         // Fall back to regular allocation
-        let mut chunk = SecureChunk::new(self.config.chunk_size, generation, self.pool_id)?;
+        let mut chunk = SecureChunk::new(self.config.chunk_size, self.config.alignment, generation, self.pool_id)?;
 
         // SIMD-optimized memory zeroing on allocation if configured
         if self.config.zero_on_alloc {
@@ -1302,6 +1313,7 @@ impl SecureMemoryPool {
                 generation,
                 pool_id: self.pool_id,
                 canary: header.canary,
+                align: self.config.alignment.max(8),
             };
 
             if let Err(e) = chunk.validate() {
